@@ -342,6 +342,29 @@ def theorem_names(vfile: Path):
     return re.findall(r"^Print Assumptions\s+([\w.']+)\s*\.", txt, re.M)
 
 
+def _strip_comments(text: str) -> str:
+    """blank out Coq comments (nested, multi-line) keeping line structure"""
+    out = []
+    depth = 0
+    i = 0
+    n = len(text)
+    while i < n:
+        two = text[i:i + 2]
+        if two == "(*":
+            depth += 1
+            out.append("  ")
+            i += 2
+        elif two == "*)" and depth > 0:
+            depth -= 1
+            out.append("  ")
+            i += 2
+        else:
+            ch = text[i]
+            out.append(ch if (depth == 0 or ch == "\n") else " ")
+            i += 1
+    return "".join(out)
+
+
 def _src_dirs():
     return [VERIF / "coq" / d for d in ("theories", "props")] + [COQ / "gen"]
 
@@ -354,8 +377,8 @@ def forbidden_scan():
                      r"native_compute)\b")
     for d in _src_dirs():
         for f in sorted(d.rglob("*.v")):
-            for n, line in enumerate(f.read_text().splitlines(), 1):
-                code = re.sub(r"\(\*.*?\*\)", "", line)
+            raw = f.read_text()
+            for n, (line, code) in enumerate(zip(raw.splitlines(), _strip_comments(raw).splitlines()), 1):
                 if pat.search(code):
                     bad.append(f"{f.relative_to(VERIF)}:{n}: {line.strip()}")
                 if re.match(r"^\s*(Variable|Variables|Hypothesis|Hypotheses|Context)\b", code):
@@ -370,8 +393,8 @@ def section_scan():
     for d in _src_dirs():
         for f in sorted(d.rglob("*.v")):
             depth = 0
-            for n, line in enumerate(f.read_text().splitlines(), 1):
-                code = re.sub(r"\(\*.*?\*\)", "", line).strip()
+            for n, line in enumerate(_strip_comments(f.read_text()).splitlines(), 1):
+                code = line.strip()
                 if re.match(r"^Section\s+\w+", code):
                     depth += 1
                 elif re.match(r"^End\s+\w+\s*\.", code) and depth > 0:
